@@ -31,6 +31,11 @@ where
     fn lib_encode(a: &Self::Aff, compressed: bool) -> Vec<u8>;
     fn points(rng: &mut SplitMix, seeded: usize, small: usize) -> Vec<NamedPt<Self::K>>;
     fn embed(k: u64) -> Self::K;
+    /// curve points whose y has a zero component (the lexicographic order of y, -y is then decided by the
+    /// other component alone): (class, x, y)
+    fn tie_points() -> Vec<(&'static str, Self::K, Self::K)> {
+        vec![]
+    }
 }
 impl WireCurve for RG1 {
     fn lib_decode(bytes: &[u8], compressed: bool, checked: bool) -> Result<G1Affine, GroupDecodingError> {
@@ -98,6 +103,41 @@ impl WireCurve for RG2 {
     }
     fn embed(k: u64) -> Q2 {
         q2u(k, 1)
+    }
+    fn tie_points() -> Vec<(&'static str, Q2, Q2)> {
+        // x = a + b u with Im(x^3) = 3a^2 b - b^3 = -4, so that x^3 + 4(1+u) lies in Fq; then y is in Fq or in u*Fq
+        let c = e2();
+        let mut out = vec![];
+        let (mut n_real, mut n_imag) = (0, 0);
+        let mut b = 1u64;
+        while (n_real < 3 || n_imag < 3) && b < 400 {
+            let bb = Q1::from_u64(b);
+            let a2 = bb.sq().mul(&bb).sub(&Q1::from_u64(4)).mul(&Q1::from_u64(3).mul(&bb).inv().unwrap());
+            if let Some(a) = a2.sqrt() {
+                for a in [a.clone(), a.neg()] {
+                    let x = Q2::new(vec![a.clone(), bb.clone()]);
+                    let rhs = c.rhs(&x);
+                    assert!(rhs.c(1).is_zero(), "tie point construction: right-hand side not in Fq");
+                    let real = rhs.c(0).clone();
+                    if let Some(y0) = real.sqrt() {
+                        if n_real < 3 {
+                            n_real += 1;
+                            out.push(("y in the base field (order of y, -y decided by c0)", x, Q2::new(vec![y0, Q1::zero()])));
+                        }
+                    } else if let Some(y1) = real.neg().sqrt() {
+                        if n_imag < 3 {
+                            n_imag += 1;
+                            out.push(("y purely imaginary (c0 = 0)", x, Q2::new(vec![Q1::zero(), y1])));
+                        }
+                    }
+                }
+            }
+            b += 1;
+        }
+        for (_, x, y) in &out {
+            assert!(c.on_curve(&Pt::Aff(x.clone(), y.clone())));
+        }
+        out
     }
 }
 
@@ -180,6 +220,10 @@ where
             }
             _ => {}
         }
+    }
+    for (cls, x, y) in C::tie_points() {
+        xs.push((cls, x.to_wire(), Some(y.clone())));
+        xs.push((cls, x.to_wire(), Some(y.neg())));
     }
     if m == 2 {
         // x = 0 and x in Fq
